@@ -35,18 +35,51 @@ type RegCase struct {
 
 var regChains = []string{"ethereum", "bsc", "minter"}
 
-const regKeys, regOrchs = 5, 6
+const regKeys, regOrchs = 7, 8
+
+// edgeIdx: key and account indices whose addresses start with the bytes 0xff and 0x00 (one address in 128 does; such
+// entries sit at the two ends of every per-chain index range)
+var edgeIdx = func() (r struct{ keyFF, key00, orchFF, orch00 int }) {
+	for i := 1000; r.keyFF == 0 || r.key00 == 0; i++ {
+		switch a := sim.EthAddr(i, "pool", 0); {
+		case a[0] == 0xff && r.keyFF == 0:
+			r.keyFF = i
+		case a[0] == 0x00 && r.key00 == 0:
+			r.key00 = i
+		}
+	}
+	for i := 1000; r.orchFF == 0 || r.orch00 == 0; i++ {
+		switch a := sim.OrchAddr(i); {
+		case a[0] == 0xff && r.orchFF == 0:
+			r.orchFF = i
+		case a[0] == 0x00 && r.orch00 == 0:
+			r.orch00 = i
+		}
+	}
+	return
+}()
 
 func regKey(i int) (addr common.Address, idx int) {
 	// key pool shared by all validators and chains
+	switch i {
+	case 5:
+		return sim.EthAddr(edgeIdx.keyFF, "pool", 0), edgeIdx.keyFF
+	case 6:
+		return sim.EthAddr(edgeIdx.key00, "pool", 0), edgeIdx.key00
+	}
 	return sim.EthAddr(100+i, "pool", 0), 100 + i
 }
 
 func regOrch(i, nvals int) sdk.AccAddress {
-	if i < 4 {
+	switch {
+	case i < 4:
 		return sim.OrchAddr(50 + i)
+	case i == 6:
+		return sim.OrchAddr(edgeIdx.orchFF)
+	case i == 7:
+		return sim.OrchAddr(edgeIdx.orch00)
 	}
-	// the last entries are validators' own accounts
+	// two entries are validators' own accounts
 	return sdk.AccAddress(sim.ValAddr((i - 4) % nvals))
 }
 
